@@ -126,6 +126,7 @@ struct Client {
         bool contract_broken = false;  // the library accepted a misuse on this context: digest oracle off
         // long-stream mode (C15)
         uint64_t long_pos = 0;
+        uint64_t long_goal = 0;
         Client() : ref(A_SHA1) {}
 };
 
@@ -883,7 +884,7 @@ Plan HashMgrSim::generate_long(uint64_t seed, bool thorough, uint64_t run_index)
         p.cfg["family"] = pr.second;
         p.cfg["api"] = g.chance(1, 3) ? API_ISAL : API_FAMILY;
         p.cfg["target"] = target;
-        p.cfg["max_long"] = thorough ? 2 : 1;
+        p.cfg["max_long"] = thorough ? 3 : 2;
         p.cfg["short_clients"] = (int) g.below(3);
         // each op: one scheduling decision; a = client selector, b = length style, c = length value, d = misc
         int nops = 400;
@@ -914,11 +915,10 @@ void HashMgrSim::execute_long(const Plan &p, Env &e, RunResult &r)
         const AlgoDesc &d = *s.d;
         e.poison_regs = true;
         int target = (int) p.get("target", 1);
-        uint64_t goal = target == 1 ? (1ull << 29) : target == 2 ? (1ull << 32) : (1ull << 32) + (1ull << 29);
-        goal += 3 * d.block + 17; // end a little past the threshold
+        // (each long client has its own final total, see long_goal below)
         s.mgr = e.mem.alloc(d.mgr_size, 64, START_FLUSH, &e.hidden, "manager", R_OBJECT);
         s.ctx_out = (uint64_t *) e.mem.alloc(8, 8, END_FLUSH, &e.hidden, "ctx_out slot", R_OUTPUT);
-        int nlong = std::max(1, std::min(s.f->lanes ? s.f->lanes : 1, (int) p.get("max_long", 2))); // long clients (each hashes > goal bytes)
+        int nlong = std::max(1, std::min(s.f->lanes ? s.f->lanes : 8, (int) p.get("max_long", 2))); // long clients (each hashes > goal bytes)
         int nshort = (int) p.get("short_clients");
         int K = nlong + nshort;
         s.cl.resize(K);
@@ -930,6 +930,13 @@ void HashMgrSim::execute_long(const Plan &p, Env &e, RunResult &r)
                 u32(c.ctx, d.off_status) = ISAL_HASH_CTX_STS_COMPLETE;
                 c.user_tag = mix64(p.seed, 0x75e7 + (uint64_t) i);
                 u64(c.ctx, d.off_user) = c.user_tag;
+        }
+        // final totals: long client 0 ends a little past the run's target threshold, further long clients a little past the
+        // lower thresholds, so that totals in each of [2^29,2^32), [2^32,2^32+2^29) and beyond are completed and checked
+        for (int i = 0; i < nlong; i++) {
+                int ti = std::max(1, target - i);
+                uint64_t gi = ti == 1 ? (1ull << 29) : ti == 2 ? (1ull << 32) : (1ull << 32) + (1ull << 29);
+                s.cl[i].long_goal = gi + 3 * d.block + 17;
         }
         void *sv[3] = { *d.disp_init, *d.disp_submit, *d.disp_flush };
         if (s.api != API_FAMILY) {
@@ -1010,6 +1017,7 @@ void HashMgrSim::execute_long(const Plan &p, Env &e, RunResult &r)
                 }
                 // long client: next segment of the periodic stream
                 uint64_t pos = c.long_pos;
+                const uint64_t goal = c.long_goal;
                 uint64_t remaining = goal - pos;
                 // next threshold ahead
                 uint64_t next_thr = goal;
